@@ -144,7 +144,7 @@ pub enum Behavior {
     Fail(u64),
 }
 
-#[derive(Clone, Debug, PartialEq)]
+#[derive(Clone, Debug, PartialEq, Hash)]
 pub enum PVal {
     Null,
     Bytes(Vec<u8>),
@@ -171,7 +171,7 @@ impl PVal {
     }
 }
 
-#[derive(Clone, Debug, PartialEq)]
+#[derive(Clone, Debug, PartialEq, Hash)]
 pub enum Cb {
     Auth {
         user: Option<Vec<u8>>,
